@@ -153,6 +153,13 @@ def constructors():
         ix2 = diskcache.Index(os.path.join(d, 'ix'), [('b', 20), ('d', 4)])
         if list(ix2.items()) != [('a', 1), ('b', 20), ('c', 3), ('d', 4)]:
             bad.append('Index(directory=existing, pairs) does not update the persisted contents in place')
+        # two Index objects compare like ordered mappings: same items in another order are NOT equal
+        ia = diskcache.Index(os.path.join(d, 'ia'), [('a', 1), ('b', 2)])
+        ib = diskcache.Index(os.path.join(d, 'ib'), [('b', 2), ('a', 1)])
+        ic = diskcache.Index(os.path.join(d, 'ic'), [('a', 1), ('b', 2)])
+        if (ia == ib) or not (ia != ib) or not (ia == ic) or (ia != ic) or not (ia == {'b': 2, 'a': 1}):
+            bad.append('two Index objects with the same items in a different order compare equal (or equal ones unequal): == %r / %r, != %r / %r' % (
+                ia == ib, ia == ic, ia != ib, ia != ic))
         cache = diskcache.Cache(os.path.join(d, 'fc'), eviction_policy='none')
         ix3 = diskcache.Index.fromcache(cache, x=1)
         dq3 = diskcache.Deque.fromcache(diskcache.Cache(os.path.join(d, 'fd'), eviction_policy='none'), [7, 8], maxlen=1)
